@@ -29,7 +29,10 @@ func synthEbb() []byte {
 	return vh.A(hdr, body, vh.A(vh.M())).Enc()
 }
 
-func loadFixtures() ([]fixture, error) {
+func loadFixtures() ([]fixture, error) { return loadFixturesOpt(true) }
+
+// loadFixturesOpt(false) reads the bytes only and calls no entry point of the repository.
+func loadFixturesOpt(withTx bool) ([]fixture, error) {
 	dir := repoDir()
 	specs := []struct {
 		name string
@@ -65,6 +68,9 @@ func loadFixtures() ([]fixture, error) {
 			return nil, fmt.Errorf("fixture %s is not a CBOR array", f.Name)
 		}
 		f.Header = it.Xs[0].Enc()
+		if !withTx {
+			continue
+		}
 		// first transaction, through the fixture's own block type
 		vh.Recover(func() {
 			blk, err := ledger.NewBlockFromCbor(f.BlockType, f.Block)
@@ -119,3 +125,80 @@ func obsTx(t uint, data []byte) (ty uint64, ok bool) {
 	})
 	return
 }
+
+// obsBlockOffsets: NewBlockFromCborWithOffsets(t, data).Block
+func obsBlockOffsets(t uint, data []byte) *obsB {
+	var o *obsB
+	vh.Recover(func() {
+		bo, err := ledger.NewBlockFromCborWithOffsets(t, data)
+		if err != nil || bo == nil || bo.Block == nil {
+			return
+		}
+		blk := bo.Block
+		o = &obsB{uint64(blk.Type()), uint64(blk.Era().Id), uint64(blk.Header().Era().Id)}
+	})
+	return o
+}
+
+// entry points that take a type id, for the history class
+var entries = []string{"NewBlockFromCbor", "NewBlockFromCborWithOffsets", "NewBlockHeaderFromCbor", "NewTransactionFromCbor"}
+
+type obsAny struct {
+	Ok     bool    `json:"ok"`
+	Type   *uint64 `json:"type,omitempty"` // Type() where the result has one
+	Era    *uint64 `json:"era,omitempty"`  // Era().Id where the result has one
+	GoType string  `json:"go_type,omitempty"`
+	Hash   string  `json:"hash,omitempty"`
+}
+
+func u64p(v uint64) *uint64 { return &v }
+
+// callEntry calls one entry point with type id t on the fixture's bytes.
+func callEntry(entry string, t uint, f *fixture) obsAny {
+	var o obsAny
+	vh.Recover(func() {
+		switch entry {
+		case "NewBlockFromCbor":
+			b, err := ledger.NewBlockFromCbor(t, f.Block)
+			if err == nil && b != nil {
+				o = obsAny{true, u64p(uint64(b.Type())), u64p(uint64(b.Era().Id)), fmt.Sprintf("%T", b), b.Hash().String()}
+			}
+		case "NewBlockFromCborWithOffsets":
+			bo, err := ledger.NewBlockFromCborWithOffsets(t, f.Block)
+			if err == nil && bo != nil && bo.Block != nil {
+				b := bo.Block
+				o = obsAny{true, u64p(uint64(b.Type())), u64p(uint64(b.Era().Id)), fmt.Sprintf("%T", b), b.Hash().String()}
+			}
+		case "NewBlockHeaderFromCbor":
+			h, err := ledger.NewBlockHeaderFromCbor(t, f.Header)
+			if err == nil && h != nil {
+				o = obsAny{true, nil, u64p(uint64(h.Era().Id)), fmt.Sprintf("%T", h), h.Hash().String()}
+			}
+		case "NewTransactionFromCbor":
+			if f.Tx == nil {
+				return
+			}
+			tx, err := ledger.NewTransactionFromCbor(t, f.Tx)
+			if err == nil && tx != nil {
+				o = obsAny{true, u64p(uint64(tx.Type())), nil, fmt.Sprintf("%T", tx), tx.Hash().String()}
+			}
+		}
+	})
+	return o
+}
+
+func (o obsAny) String() string {
+	if !o.Ok {
+		return "error"
+	}
+	s := o.GoType
+	if o.Type != nil {
+		s += fmt.Sprintf(" Type()=%d", *o.Type)
+	}
+	if o.Era != nil {
+		s += fmt.Sprintf(" Era().Id=%d", *o.Era)
+	}
+	return s + " hash=" + o.Hash
+}
+
+func (o obsAny) same(p obsAny) bool { return o.String() == p.String() }
